@@ -42,6 +42,7 @@ func checkC18(cx *Ctx, r *Report) {
 	cx.checkSendsWhatItIsGiven(r)
 	// a reply is one document: every routed handler performs exactly one reply act on every path (an error text
 	// after a document that was already written makes the body ill-formed)
+	cx.requireC20(r) // the chain runs one error callback per request: without that, one reply act per callback is not one document per reply
 	for _, rt := range cx.routes() {
 		if strings.Contains(rt.Handler.Synthetic, "bound method wrapper") {
 			for _, c := range callsIn(rt.Handler) {
